@@ -507,7 +507,7 @@ class FockStateVector(Preparation, _mixins.WeightMixin):
             for occupation_numbers, coefficient in other.params[
                 "fock_amplitude_map"
             ].items():
-                coefficient *= other.params["coefficient"]
+                coefficient = coefficient * other.params["coefficient"]
                 if occupation_numbers in fock_amplitude_map:
                     fock_amplitude_map[occupation_numbers] += coefficient
                 else:
